@@ -47,6 +47,11 @@ pub struct Sc {
     /// that the pre-existing areas are the topmost ones
     #[serde(default)]
     pub code_low: bool,
+    /// C17: what the host did to the machine before it initialised the process stack: "" nothing, "init_stack"
+    /// a plain stack (init_stack), "program_start" an earlier process stack, "named_stack" an area of its own
+    /// that happens to be called "Stack"
+    #[serde(default)]
+    pub prior: String,
 }
 
 pub struct E4Engine;
@@ -188,9 +193,9 @@ pub fn gen_img(r: &mut Rng, entry_code: &[u8], max_segs: u64) -> ImgSpec {
 
 fn gen_c15(r: &mut Rng, idx: u64) -> Sc {
     if idx < BUNDLED.len() as u64 {
-        return Sc { kind: "c15".into(), base: Base::Bundled { name: BUNDLED[idx as usize].0.to_string() }, muts: vec![], argv: vec![], envp: vec![], stack_len: 0, blockers: vec![], grown_blockers: false, code_low: false };
+        return Sc { kind: "c15".into(), base: Base::Bundled { name: BUNDLED[idx as usize].0.to_string() }, muts: vec![], argv: vec![], envp: vec![], stack_len: 0, blockers: vec![], grown_blockers: false, code_low: false, prior: String::new() };
     }
-    Sc { kind: "c15".into(), base: Base::Gen { spec: gen_img(r, &[], 8) }, muts: vec![], argv: vec![], envp: vec![], stack_len: 0, blockers: vec![], grown_blockers: false, code_low: false }
+    Sc { kind: "c15".into(), base: Base::Gen { spec: gen_img(r, &[], 8) }, muts: vec![], argv: vec![], envp: vec![], stack_len: 0, blockers: vec![], grown_blockers: false, code_low: false, prior: String::new() }
 }
 
 /// C10, ELF part (also sampled by C16): a generated image in which one PT_LOAD header's address is
@@ -229,7 +234,7 @@ fn gen_relational(r: &mut Rng, kind: &str) -> Sc {
         let pos_i = spec.ph_order.iter().position(|x| *x == i).unwrap_or(0) as u64;
         muts.push(Mutation::Field { table: "p".into(), idx: pos_i, field: "p_memsz".into(), value: a.memsz + r.range(1, 0x4000) });
     }
-    Sc { kind: kind.into(), base: Base::Gen { spec }, muts, argv: vec![], envp: vec![], stack_len: 0, blockers: vec![], grown_blockers: false, code_low: false }
+    Sc { kind: kind.into(), base: Base::Gen { spec }, muts, argv: vec![], envp: vec![], stack_len: 0, blockers: vec![], grown_blockers: false, code_low: false, prior: String::new() }
 }
 
 fn strings(r: &mut Rng, n: u64, long_ok: bool) -> Vec<String> {
@@ -305,7 +310,7 @@ fn gen_c17(r: &mut Rng, thorough: bool) -> Sc {
     let pops = (3 + argc + envc) as usize;
     let code = observer_code(pops);
     let base = if code.len() <= 0x2000 && r.chance(1, 2) { Base::Gen { spec: gen_img(r, &code, 4) } } else { Base::New };
-    Sc { kind: "c17".into(), base, muts: vec![], argv, envp, stack_len, blockers, grown_blockers: r.chance(1, 3), code_low: r.chance(1, 3) }
+    Sc { kind: "c17".into(), base, muts: vec![], argv, envp, stack_len, blockers, grown_blockers: r.chance(1, 3), code_low: r.chance(1, 3), prior: if r.chance(1, 4) { r.pick(&["init_stack", "init_stack_small", "program_start", "named_stack"]).to_string() } else { String::new() } }
 }
 
 /// the enumerated storage faults on the bundled images: every header truncation offset, a stride
@@ -438,7 +443,7 @@ fn random_mutation(r: &mut Rng, bytes: &[u8]) -> Mutation {
 
 fn gen_c16(r: &mut Rng, idx: u64) -> Sc {
     let en = enumerated();
-    let mk = |base: Base, muts: Vec<Mutation>| Sc { kind: "c16".into(), base, muts, argv: vec![], envp: vec![], stack_len: 0, blockers: vec![], grown_blockers: false, code_low: false };
+    let mk = |base: Base, muts: Vec<Mutation>| Sc { kind: "c16".into(), base, muts, argv: vec![], envp: vec![], stack_len: 0, blockers: vec![], grown_blockers: false, code_low: false, prior: String::new() };
     if (idx as usize) < en.len() {
         let (bi, m) = &en[idx as usize];
         return mk(Base::Bundled { name: BUNDLED[*bi].0.to_string() }, m.clone());
@@ -717,6 +722,27 @@ fn run_c17(sc: &Sc, ctx: &mut Ctx) {
         } else {
             let _ = catch(|| ax.mem_init_zero(*s, *l));
         }
+    }
+    match sc.prior.as_str() {
+        "init_stack" => {
+            // (kept small: the strings are placed by a linear search in steps of their own length, which
+            // legitimately takes a probe per few bytes of everything mapped in front of them)
+            let _ = catch(|| ax.init_stack((sc.stack_len.clamp(0x80, 0x1000)) * 2));
+            ctx.probe("prior_stack");
+        }
+        "init_stack_small" => {
+            let _ = catch(|| ax.init_stack(64));
+            ctx.probe("prior_stack");
+        }
+        "program_start" => {
+            let _ = catch(|| ax.init_stack_program_start(0x200, vec!["old".to_string(), "-x".to_string()], vec!["OLD=1".to_string()]));
+            ctx.probe("prior_stack");
+        }
+        "named_stack" => {
+            let _ = catch(|| ax.mem_init_zero_named(0x7100_0000, 0x400, "Stack".to_string()));
+            ctx.probe("prior_stack");
+        }
+        _ => {}
     }
     let pre: Vec<(u64, u64)> = ax.verif_area_extents().iter().map(|a| (a.0, a.1)).collect();
     let shape = format!(
